@@ -27,6 +27,7 @@ var c12Queries = []string{
 	"WITH c AS (SELECT a, ASYNC.vid(a) AS v FROM t), d AS (SELECT * FROM c WHERE a > ?) SELECT * FROM d",
 	"SELECT a, AWAIT(ASYNC.vid(a + 1)) AS v, AWAIT(a) AS w FROM t WHERE a > ?",
 	"SELECT ARRAY(IF(a > ?, 1, a), a) AS arr, (a, IF(a > ?, 'x', 'y')) AS tup, CONCAT('v=', IF(a > ?, 1, 2)) AS c, FIRST(ARRAY(IF(a > ?, a, 'z'))) AS f FROM t",
+	"SELECT a, (SELECT (SELECT * FROM `<-`) AS y FROM items) AS x FROM t WHERE a > ?",
 	// INTO joins (nested loop and hash)
 	"SELECT * FROM t x JOIN t y ON x.a <= y.a INTO pair WHERE x.a > ?",
 	"SELECT * FROM t x LEFT JOIN t y ON x.a = y.a INTO pair WHERE x.a > ?",
@@ -65,6 +66,9 @@ func H_C12_plain() {
 		if c12Queries[qi][i:i+5] == "ASYNC" {
 			asyncCalls++
 		}
+	}
+	if n > 1 && hasAnyWord(c12Queries[qi], "FROM `<-`)") {
+		verif.Assume(false) // the whole scope is copied into every row: one row
 	}
 	hasAsync := asyncCalls > 0
 	if hasAsync && (n > 1+verif.Tier() || (asyncCalls > 1 && n > 1)) {
@@ -138,3 +142,5 @@ func deepCopyRows(rows []Map) []any {
 	}
 	return out
 }
+
+func hasAnyWord(s string, words ...string) bool { return hasAny(s, words...) }
